@@ -312,6 +312,11 @@ class Check(Property):
         u = regs.ureg("fraction")
         v = []
         s = c["s"]
+        if not getattr(self, "_reparse_done", False):
+            self._reparse_done = True
+            rv = self.reparse_probe()
+            if rv:
+                return rv
         if c["kind"] == "malformed":
             return self.oracle_malformed(u, c)
         if c["kind"] == "word":
@@ -386,6 +391,36 @@ class Check(Property):
                 want = (int,) if (isint and tname == "float") else ((int, T) if isint else (T,))
                 if type(r) not in want and type(getattr(r, "magnitude", None)) not in want:
                     v.append(f"C07 literal {s!r} in a {tname} registry has type {type(r).__name__}")
+        return v
+
+    def reparse_probe(self):
+        """parsing a string gives the quantity the string denotes - every time: what is done to an earlier result (in-place
+        conversion, in-place arithmetic) does not change what the same text parses to afterwards"""
+        import numpy as np
+        v = []
+        texts = ["2 m", "degC", "3 km per hour squared + 1 km/hour**2", "5 meter / second", "1.5 inch", "2 ** 3 gram", "7"]
+        for kind, kw in (("float", {}), ("fraction", {}), ("float", {"force_ndarray": True})):
+            r = regs.fresh(kind, **kw)
+            for text in texts:
+                def snap(q):
+                    m = getattr(q, "magnitude", q)
+                    return (type(m).__name__, np.asarray(m, dtype=float).tolist(), str(getattr(q, "units", "")))
+                try:
+                    first = r(text)
+                    s0 = snap(first)
+                    for mutate in (lambda q: q.ito_base_units(), lambda q: q.ito_root_units(), lambda q: q.__iadd__(q), lambda q: q.__imul__(3)):
+                        if hasattr(first, "magnitude"):
+                            try:
+                                mutate(first)
+                            except Exception:  # noqa: BLE001
+                                pass
+                    again = r(text)
+                    s1 = snap(again)
+                except Exception as exc:  # noqa: BLE001
+                    v.append(f"C07 re-parse probe {text!r} [{kind} {kw}] raised {type(exc).__name__}: {exc}")
+                    continue
+                if s0 != s1:
+                    v.append(f"C07 {text!r} [{kind} {kw}] parsed to {s0}; after in-place operations on that result the same text parses to {s1}")
         return v
 
     def oracle_malformed(self, u, c):
